@@ -361,6 +361,15 @@ def _up_requires(s, a):
     return both(no_change_pending(s), nonempty(s), size_ok(a.size), lb_ok(s))
 
 
+def _updown_on_raise(old, s, a, exc):
+    if exc.cls is _lbmod.ListBoxError:
+        now = walker_focus(s, "now")
+        tw = val(now[0])
+        yield "only-for-a-new-focus-widget-whose-height-depends-on-focus", neg(rows_of(tw, a.size[0], True) == rows_of(tw, a.size[0], False))
+    else:
+        yield "walker-refused-a-position-it-reported-nothing-moved", both(same_scroll_state(s, old), walker_focus(s, "now")[1] == walker_focus(old, "entry")[1])
+
+
 def _handled_state(s, rows, final, maxrow):
     """After a handled key: the scroll state stored is sane and puts a row of the (new) focus widget inside the box."""
     return both(lb_ok(s), final < maxrow, either(final >= 0, final + rows >= 1))
@@ -462,10 +471,152 @@ class lb_keypress_up:
         yield "cursor-would-leave-topmost-item-takes-the-focus", implies(both(cursor_leaves, neg(stuck)),
                                                                          both(now[1] == ch.pos(UP, K2), eq(val(now[0]), tw2), stored_as(s, final2, rows2), lb_ok(s)))
 
-    def on_raise(old, s, a, exc):
-        if exc.cls is _lbmod.ListBoxError:
-            now = walker_focus(s, "now")
-            tw = val(now[0])
-            yield "only-for-a-new-focus-widget-whose-height-depends-on-focus", neg(rows_of(tw, a.size[0], True) == rows_of(tw, a.size[0], False))
-        else:
-            yield "walker-refused-a-position-it-reported-nothing-moved", both(same_scroll_state(s, old), walker_focus(s, "now")[1] == walker_focus(old, "entry")[1])
+    on_raise = staticmethod(lambda old, s, a, exc: _updown_on_raise(old, s, a, exc))
+
+
+def _down_loop_listed(v):
+    """Loop 0 of _keypress_down: the listed items below the focus, nearest first; i passed, none of them a candidate."""
+    vis = Vis()
+    i = v.i_
+    q = V.arbitrary("down.q")
+    V.instantiate(q, i - 1)
+    listed_hints(vis.below, i)
+    last = Q.seq_get(vis.below, imax(i - 1, 0))
+    yield "offset-of-the-item-reached", v.row_offset == vis.off + vis.frows + vis.B(i)
+    yield "position-widget-rows-of-the-last-item-passed", ite(i >= 1, both(v.pos == last[1], _opt_widget_is(v.widget, last[0]), v.rows == last[2]),
+                                                              both(v.pos == vis.fpos, V.opt_isnone(v.widget), v.rows == vis.frows))
+    yield "no-candidate-passed", implies(both(0 <= q, q < i), neg(vis.cand(vis.below, q)))
+
+
+def _down_base(vis):
+    """Row of the box just below the bottommost listed item, minus the one row to scroll."""
+    return vis.off + vis.frows + vis.B(vis.nb) - 1
+
+
+def _down_loop_scroll(v):
+    """Loop 1 of _keypress_down: m widgets fetched from below the bottommost listed item, chain(DOWN, kl + 1 ..); all but the
+    last one have no rows and the last one is no candidate."""
+    st = cur()
+    vis = Vis()
+    m = v.i_
+    if st.ghost.get("inv_assuming"):
+        st.ghost["down_m"] = m
+    ch = vis.ch
+    K = vis.kl + m
+    ch.unfold(DOWN, K)
+    ch.unfold(DOWN, K - 1)
+    # lemma chain-rows-monotone, instantiated: an item fetched among those calculate_visible walked has no rows, and when
+    # rows of the box are blank the walker has nothing beyond those
+    for k in (K, K + 1):  # (K + 1: the item the iteration in progress fetches)
+        ch.mono(DOWN, vis.kl, k - 1)
+        ch.mono(DOWN, k, vis.kb)
+        ch.mono(DOWN, vis.kb + 1, k)
+    e = v.at_entry
+    base = _down_base(vis)
+    rows_F = rows_of(val(v.widget), v.maxcol, False)
+    yield "at-the-mth-item-below-the-bottommost-listed", both(ch.ok(DOWN, K), v.pos == ch.pos(DOWN, K))
+    yield "nothing-fetched-yet", implies(m == 0, both(V.opt_eq(v.widget, e.widget), v.rows == e.rows, v.row_offset == base))
+    yield "last-one-fetched", implies(m >= 1, both(_opt_widget_is(v.widget, ch.widget(DOWN, K)), v.rows == rows_F, neg(both(neg(v.rows == 0), W.call_quiet(st, val(v.widget), "selectable", {}))),
+                                                   vis.tb == 0, v.row_offset == base + v.rows))
+
+
+@contract(LBX + "ListBox._keypress_down", property=("C07", "C08"), replayable=False, contract_overrides={_CF: lb_change_focus_scroll})
+class lb_keypress_down:
+    """'down' (and the mouse wheel): the nearest listed item below the focus that has rows and is selectable takes the focus,
+    where it is, pulled into the box if it is cut off.  Without one the view scrolls down by one row: the walker is asked for
+    items below the bottommost listed one until one with rows turns up (a selectable one takes the focus, pulled in from the
+    last row); the focus widget keeps the focus one row higher as long as it is selectable and it and its cursor stay inside
+    the box, else the bottommost item takes it.  At the bottom of the list (nothing cut off, the walker has nothing with rows
+    below) the key comes back (True) and nothing has changed."""
+
+    self_shape = LB
+    params = dict(size=Tup(Int, Int))
+    result = Opt(Bool)
+    # ListBoxError: only for a widget whose height depends on `focus` (C07-KF1; here: a focus widget without rows at the top
+    # of the box, the item below it takes the focus one row higher and has at most one row when focused);
+    # IndexError / KeyError: only when the walker refuses a position it has just reported itself
+    raises = (_lbmod.ListBoxError, IndexError, KeyError)
+    modifies = ("offset_rows", "inset_fraction", "pref_col")
+    loops = {
+        0: Loop(invariant=_down_loop_listed, shapes={"widget": Opt(WIDGET), "pos": Int, "rows": Dim}),
+        1: Loop(invariant=_down_loop_scroll, counter=True, shapes={"widget": Opt(WIDGET), "pos": Int, "rows": Dim}),
+    }
+
+    requires = staticmethod(_up_requires)
+
+    def ensures(old, s, a, result):
+        st = cur()
+        maxcol, maxrow = a.size
+        vis = Vis()
+        ch = vis.ch
+        q = V.arbitrary("down.q")
+        now = walker_focus(s, "exit")
+        was = walker_focus(old, "entry")
+        unchanged = both(same_scroll_state(s, old), V.opt_eq(s.pref_col, old.pref_col), now[1] == was[1])
+        yield "handled-or-not", either(V.opt_isnone(result), V.opt_eq(result, True))
+        if "loop_index" in st.ghost:
+            # ---- a listed candidate
+            i = st.ghost["loop_index"]
+            listed_hints(vis.below, i)
+            w, p, r = Q.seq_get(vis.below, i)
+            tw = widget_at(old._body, 0, p)
+            rows = rows_of(tw, maxcol, True)
+            final = snapped(vis.off + vis.frows + vis.B(i), "above", True, rows, maxrow, maxrow - 1)
+            yield "nearest-listed-selectable-item-with-rows-takes-the-focus", both(V.opt_isnone(result), vis.cand(vis.below, i), implies(both(0 <= q, q < i), neg(vis.cand(vis.below, q))),
+                                                                                   now[1] == p, eq(val(now[0]), w))
+            yield "where-it-is-pulled-into-the-box", stored_as(s, final, rows)
+            yield "a-focus-row-inside-the-box", _handled_state(s, rows, final, maxrow)
+            return
+        yield "no-listed-candidate", implies(both(0 <= q, q < vis.nb), neg(vis.cand(vis.below, q)))
+        m = st.ghost["down_m"]
+        base = _down_base(vis)
+        watch(m=m, result=result, off1=s.offset_rows, inum1=s.inset_fraction[0], iden1=s.inset_fraction[1], base=base)
+        if 1 not in st.ghost.get("loop_end", {}):
+            # ---- left from inside the scroll loop, while fetching item kl + m + 1
+            K = vis.kl + m + 1
+            ch.unfold(DOWN, K - 1)
+            if not is_none(result):
+                yield "comes-back-only-at-the-bottom-of-the-list-nothing-changed", both(V.opt_eq(result, True), vis.tb == 0, neg(ch.ok(DOWN, K)), unchanged)
+                return
+            tw = ch.widget(DOWN, K)
+            rows = rows_of(tw, maxcol, True)
+            final = snapped(base, "above", True, rows, maxrow, maxrow - 1)
+            yield "selectable-item-scrolled-in-takes-the-focus", both(vis.tb == 0, base == maxrow - 1, ch.ok(DOWN, K), rows_of(tw, maxcol, False) >= 1, W.call_quiet(st, tw, "selectable", {}),
+                                                                      now[1] == ch.pos(DOWN, K), eq(val(now[0]), tw))
+            yield "flush-with-the-bottom-if-it-fits", both(stored_as(s, final, rows), implies(both(1 <= rows, rows <= maxrow), final == maxrow - rows))
+            yield "a-focus-row-inside-the-box", _handled_state(s, rows, final, maxrow)
+            return
+        # ---- the scroll loop has run out: the row to scroll in is there (or the bottommost item was cut off already)
+        K = vis.kl + m
+        ch.unfold(DOWN, K)
+        ch.unfold(DOWN, K - 1)
+        sel_f = W.call_quiet(st, vis.fw, "selectable", {})
+        leaves = either(neg(sel_f), vis.off + vis.frows - 1 <= 0)
+        cy = val(vis.cursor)[1] if not (vis.cursor is None) else 0
+        cursor_leaves = both(neg(leaves), neg(V.opt_isnone(vis.cursor)), cy + vis.off - 1 < 0)
+        bottommost_is_focus = both(vis.nb == 0, m == 0)
+        yield "handled", V.opt_isnone(result)
+        keeps = both(neg(leaves), neg(cursor_leaves))
+        yield "focus-kept-one-row-higher", implies(either(keeps, both(leaves, bottommost_is_focus)), both(now[1] == was[1], stored_as(s, vis.off - 1, vis.frows), _handled_state(s, vis.frows, vis.off - 1, maxrow)))
+        # the bottommost item takes the focus: the last one fetched (its first row becomes the last row), else the bottommost listed one
+        last = Q.seq_get(vis.below, imax(vis.nb - 1, 0))
+        tw = ite(m >= 1, ch.widget(DOWN, K), last[0])
+        rows = rows_of(tw, maxcol, True)
+        asked = ite(m >= 1, base, base - last[2])
+        final = snapped(asked, "above", W.call_quiet(st, tw, "selectable", {}), rows, maxrow, maxrow - 1)
+        yield "bottommost-item-takes-the-focus-when-the-focus-widget-cannot-keep-it", implies(both(leaves, neg(bottommost_is_focus)),
+                                                                                             both(now[1] == ch.pos(DOWN, K), eq(val(now[0]), tw), stored_as(s, final, rows), _handled_state(s, rows, final, maxrow)))
+        # the cursor would leave the box: the bottommost item (fetched now if the focus widget is the bottommost one) takes the focus
+        ch.unfold(DOWN, K + 1)
+        K2 = ite(bottommost_is_focus, K + 1, K)
+        tw2 = ite(bottommost_is_focus, ch.widget(DOWN, K + 1), tw)
+        rows2 = rows_of(tw2, maxcol, True)
+        asked2 = ite(bottommost_is_focus, base, asked)
+        asked2 = ite(asked2 >= maxrow, maxrow - 1, asked2)
+        final2 = snapped(asked2, "above", W.call_quiet(st, tw2, "selectable", {}), rows2, maxrow, maxrow - 1)
+        stuck = both(bottommost_is_focus, neg(ch.ok(DOWN, K + 1)))
+        yield "cursor-would-leave-nothing-below-nothing-changed", implies(both(cursor_leaves, stuck), unchanged)
+        yield "cursor-would-leave-bottommost-item-takes-the-focus", implies(both(cursor_leaves, neg(stuck)),
+                                                                            both(now[1] == ch.pos(DOWN, K2), eq(val(now[0]), tw2), stored_as(s, final2, rows2), _handled_state(s, rows2, final2, maxrow)))
+
+    on_raise = staticmethod(lambda old, s, a, exc: _updown_on_raise(old, s, a, exc))
